@@ -11,11 +11,18 @@ for m in sorted(glob.glob(os.path.join(HERE, "seeded", "*", "*", "meta.json"))):
     first = next((l.strip(" -#*") for l in notes if len(l.strip()) > 25), "")
     caught = ", ".join(d.get("caught_by", []))
     if not caught:
-        caught = "(judged outside the domain)" if (d.get("judged_out_of_domain") or ("%s/%s" % (pid, n)) in JUDGE) else "**missed**"
+        j = JUDGE.get("%s/%s" % (pid, n))
+        if isinstance(j, dict) and j.get("judged") in ("superseded", "neutralised"):
+            caught = "(%s by a later fix: commit)" % j["judged"]
+        elif d.get("judged_out_of_domain") or j:
+            caught = "(judged outside the domain)"
+        else:
+            caught = "**missed**"
     rows.append((pid, n, caught, first[:150]))
 print("| seeded change | caught by (quick tier) | what it is |")
 print("|---|---|---|")
 for pid, n, c, f in rows:
     print("| %s/%s | %s | %s |" % (pid, n, c, f.replace("|", "/")))
 tot = len(rows); miss = sum(1 for r in rows if "missed" in r[2]); out = sum(1 for r in rows if "outside" in r[2])
-print("\n%d confirmed seeded changes (wave 1: <n>, wave 2: b<n>), %d caught by at least one check, %d judged outside the stated domain, %d missed." % (tot, tot - miss - out, out, miss))
+sup = sum(1 for r in rows if "later fix" in r[2])
+print("\n%d confirmed seeded changes (wave 1: <n>, wave 2: b<n>, wave 3: c<n>), %d caught by at least one check, %d judged outside the stated domain, %d superseded / neutralised by a later fix: commit, %d missed." % (tot, tot - miss - out - sup, out, sup, miss))
